@@ -5,15 +5,17 @@ PROP = dict(
     gen_files={},
     lean_modules=["MM.Props.C29"],
     theorems=[
-        "MM.C29.C29_refuted",
-        "MM.C29.C29_refuted_ttl",
-        "MM.C29.C29_refuted_evict",
         "MM.C29.C29_partial",
+        "MM.C29.C29_refuted",
+        "MM.C29.C29_evict_witness",
+        "MM.C29.C29_pinned_ttl_refuted",
+        "MM.C29.C29_pinned_forged_evict_refuted",
     ],
     spec=True,
     chunk=3000,
     rule="case = a fresh real flood.Flooder with window {3,9,30,300} s, TTL {window+0.5 s (default-like), 2*window+-0.5 s, 3*window+0.5 s, 1.5 s}, "
-         "MaxSeenCacheSize {0,1,2,3,5,100,10000}, signing key in 88% of cases, and a history of 3-90 events: deliveries (sleep/wake; genuine, "
+         "MaxSeenCacheSize {0, 10000} for random histories and {1,2,3,5,8} for eviction cases (cache at / one over / several over the cap, cleanup, "
+         "replays), signing key in 88% of cases, and a history of 3-90 events: deliveries (sleep/wake; genuine, "
          "replayed from the same/another peer, forged: unsigned, garbage, other key, signed over other origin/id/timestamp; timestamps at now, "
          "+-3 s, +-window, +-(window-3), +-(window+3), +-2*window, 0, 2^62, 2^64-1, year 2603), virtual clock advances, cache cleanups (TTL expiry, "
          "forced and non-forced size eviction), key listings, peer connections (pending-wake forwarding). Real Ed25519. Non-trivial = delivery "
@@ -26,17 +28,17 @@ PROP = dict(
         "non-forced size eviction (Go map iteration order): the engine answers `anyof` for keys that may or may not have survived",
     ],
     assumptions=[
-        "C29_partial: signing key configured, timestampWindow < 2^63-1 ns, SeenCacheTTL >= 2*timestampWindow, no cleanup has to size-evict (noEvict)",
+        "C29_partial: signing key configured, timestampWindow < 2^63-1 ns, no cleanup along the history has to size-evict (noEvict)",
         "the clock is monotone (advance takes a natural number)",
         "locally originated commands (FloodSleepCommand/FloodWakeCommand) are outside the model",
     ],
     manifest=dict(
         category="proof",
-        text="Lean: C29_statement (every signed command accepted at most once over EVERY history of deliveries, clock advance and cleanups) is "
-             "REFUTED on the code twice (C29_refuted_ttl: default TTL = window lets a command stamped ahead be replayed after its cache entry "
-             "expires; C29_refuted_evict: forged ids are marked seen before verification and size eviction may drop the genuine entry) and "
-             "PROVED under TTL >= 2*window and no size eviction (C29_partial, any signature predicate, any history); model tied to the code by a "
-             "differential run of the real Flooder under a virtual clock; both refutations are replayed on the real code (open findings)",
+        text="Lean: C29_partial - every signed command is accepted at most once over EVERY history of genuine/replayed/forged deliveries, clock "
+             "advance, cleanups and peer connections in which no cleanup has to size-evict, for any configuration and any signature predicate "
+             "(after two fixes: verify before marking seen; cache TTL >= 2*window). The unrestricted statement stays REFUTED (C29_refuted: "
+             "more than MaxSeenCacheSize validly signed commands inside two windows can evict a genuine entry - open finding, replayed on the "
+             "real code). Model tied to the code by a differential run of the real Flooder under a virtual clock",
         design_ref="DESIGN.md section 5 C29",
         note="Lean kernel; Ed25519 abstract; virtual clock by shifting recorded instants; eviction victims nondeterministic (anyof)",
         technique="Lean 4 proof (history induction with a protection invariant) + machine-checked refutations + differential correspondence harness",
